@@ -87,3 +87,123 @@ Definition run_c09_oracle (inp : list Z) : list Z :=
   | n :: r => let '(ops, obs) := decode_qops (Z.to_nat n) r in [if mq_log_ok ops obs then 1 else 0]
   | _ => [-1]
   end.
+
+(** ------------------------------------------------------------------------------------------------------------
+    Withdrawal of a request that is still queued.
+    MessImpl::cancel(): [if (get_state() == State::WAITING) { queue_->remove(this); set_state(CANCELED); }] -- a message
+    is WAITING exactly while it sits in the queue, so cancel() of a paired (DONE) message leaves the queue alone.
+    MessageQueueImpl::remove(): [it = std::find(queue_.begin(), queue_.end(), mess); queue_.erase(it)] -- that one
+    element goes, the others keep their relative order.
+    Callers: s4u::Mess::cancel() (one message); ActorImpl::cleanup_from_self()/exit() when the issuer ends or is killed
+    ([while (not activities_.empty()) activities_.begin()->get()->cancel()]: every non-detached message of the actor,
+    in the order of the std::set, i.e. by address -- an arbitrary order, hence a *list* of ids here). *)
+Definition zmem (i : Z) (l : list Z) : bool := existsb (Z.eqb i) l.
+Definition qids (q : list mqent) : list Z := map (fun e => mid (snd e)) q.
+
+(* MessageQueueImpl::remove: std::find + erase; None = not queued *)
+Fixpoint remove_id (i : Z) (q : list mqent) : option (list mqent) :=
+  match q with
+  | [] => None
+  | e :: r => if mid (snd e) =? i then Some r
+              else match remove_id i r with
+                   | Some r' => Some (e :: r')
+                   | None => None
+                   end
+  end.
+(* MessImpl::cancel on message i; the second component accumulates the messages actually withdrawn *)
+Definition cancel1 (st : list mqent * list Z) (i : Z) : list mqent * list Z :=
+  match remove_id i (fst st) with
+  | Some q' => (q', snd st ++ [i])
+  | None => st
+  end.
+Definition cancel_all (q : list mqent) (ids : list Z) : list mqent * list Z := fold_left cancel1 ids (q, []).
+
+(* histories with withdrawals: a request, or cancel() called on the messages [ids] one after the other *)
+Inductive xop := XReq (o : qop) | XCancel (ids : list Z).
+
+(* result: final queue, pairs formed (in order), messages withdrawn while queued (in order) *)
+Fixpoint xrun (q : list mqent) (xops : list xop) : list mqent * list (mess * mess) * list Z :=
+  match xops with
+  | [] => (q, [], [])
+  | XReq o :: t => let '(q1, ev) := qstep q o in let '(q2, evs, w) := xrun q1 t in (q2, ev ++ evs, w)
+  | XCancel ids :: t => let '(q1, w1) := cancel_all q ids in let '(q2, evs, w) := xrun q1 t in (q2, evs, w1 ++ w)
+  end.
+Definition withdrawn (xops : list xop) : list Z := snd (xrun [] xops).
+
+Definition op_mess (o : qop) : mess := match o with QPut m => m | QGet m => m end.
+Fixpoint req_ids (xops : list xop) : list Z :=
+  match xops with [] => [] | XReq o :: t => mid (op_mess o) :: req_ids t | XCancel _ :: t => req_ids t end.
+Fixpoint xputs_of (xops : list xop) : list mess :=
+  match xops with [] => [] | XReq (QPut m) :: t => m :: xputs_of t | _ :: t => xputs_of t end.
+Fixpoint xgets_of (xops : list xop) : list mess :=
+  match xops with [] => [] | XReq (QGet m) :: t => m :: xgets_of t | _ :: t => xgets_of t end.
+(* the requests that were not withdrawn *)
+Definition surv (w : list Z) (l : list mess) : list mess := filter (fun m => negb (zmem (mid m) w)) l.
+(* the same history as if the withdrawn requests had never been issued *)
+Fixpoint erase (w : list Z) (xops : list xop) : list qop :=
+  match xops with
+  | [] => []
+  | XReq o :: t => if zmem (mid (op_mess o)) w then erase w t else o :: erase w t
+  | XCancel _ :: t => erase w t
+  end.
+
+(** oracle for logs of histories with withdrawals: the k-th surviving get obtains the k-th surviving put *)
+Definition expected_xlog (xops : list xop) : list Z :=
+  let w := withdrawn xops in
+  flat_map (fun pg => [mid (snd pg); mpayload (fst pg)]) (combine (surv w (xputs_of xops)) (surv w (xgets_of xops))).
+Definition mq_xlog_ok (xops : list xop) (obs : list Z) : bool := zeq_list obs (expected_xlog xops).
+
+(** one record = kind(1 put | 2 get) id actor payload, or 3 n id_1 .. id_n (cancel() on these messages, in that order) *)
+Fixpoint decode_xops (n : nat) (l : list Z) : list xop * list Z :=
+  match n with
+  | O => ([], l)
+  | S n' =>
+      match l with
+      | kind :: r0 =>
+          if kind =? 3 then
+            match r0 with
+            | k :: r1 => let '(ids, r2) := take_n (Z.to_nat k) r1 in
+                         let '(os, rest) := decode_xops n' r2 in (XCancel ids :: os, rest)
+            | [] => ([], l)
+            end
+          else
+            match r0 with
+            | id :: actor :: payload :: r =>
+                let m := mkMess id actor payload in
+                let '(os, rest) := decode_xops n' r in (XReq (if kind =? 1 then QPut m else QGet m) :: os, rest)
+            | _ => ([], l)
+            end
+      | [] => ([], l)
+      end
+  end.
+(* input: nops records...   output: (get id, payload)* in the order the pairs are formed, -1, withdrawn ids, -1, ids left queued *)
+Definition run_c09x (inp : list Z) : list Z :=
+  match inp with
+  | n :: r => let '(q, pairs, w) := xrun [] (fst (decode_xops (Z.to_nat n) r)) in
+              flat_map (fun pg => [mid (snd pg); mpayload (fst pg)]) pairs ++ [-1] ++ w ++ [-1] ++ qids q
+  | _ => [-1]
+  end.
+(* input: nops records... (get id, payload)* in get order   output: 1 | 0 *)
+Definition run_c09x_oracle (inp : list Z) : list Z :=
+  match inp with
+  | n :: r => let '(xops, obs) := decode_xops (Z.to_nat n) r in [if mq_xlog_ok xops obs then 1 else 0]
+  | _ => [-1]
+  end.
+
+(** ------------------------------------------------------------------------------------------------------------
+    MessImpl::finish(): the hand-over of the payload to the receive buffer.  finish() runs when the pair is formed
+    (start()) and again for every later wait()/test() on the message by either side (ActivityImpl::wait_for calls
+    finish() at once when the state is neither WAITING nor RUNNING).
+      pinned code :  [if (state == DONE && payload_ && dst_buff_) *(void** )dst_buff_ = payload_;]
+      repaired    :  the same, followed by [dst_buff_ = nullptr;]  (the payload is handed over once)
+    0 stands for nullptr; an event (d, p) = "payload p written to buffer d". *)
+Record mobj := mkMobj { mo_done : bool; mo_payload : Z; mo_dst : Z }.
+Definition finish_copy (repaired : bool) (m : mobj) : mobj * list (Z * Z) :=
+  if mo_done m && negb (mo_payload m =? 0) && negb (mo_dst m =? 0)
+  then ((if repaired then mkMobj (mo_done m) (mo_payload m) 0 else m), [(mo_dst m, mo_payload m)])
+  else (m, []).
+Fixpoint finish_n (repaired : bool) (n : nat) (m : mobj) : list (Z * Z) :=
+  match n with
+  | O => []
+  | S n' => let '(m', ev) := finish_copy repaired m in ev ++ finish_n repaired n' m'
+  end.
